@@ -260,7 +260,7 @@ def _valid_cells(S, ks, EA):
           scope="bounded: <= 2 cells (all values symbolic); pairwise / per-cell checks are assert-only loops")
 def allocation_constructor_contract(S, ks):
     """Allocation(cells) is accepted iff the cells are well formed (ratios in [0,1], no pairwise overlap beyond the area
-    tolerance, inside the positive quadrant, every listed module with a non-zero total area); then it reports the cells
+    tolerance, inside the positive quadrant); then it reports the cells
     unchanged and area(m) / center(m) are the sums / area-weighted centroid by definition."""
     E, EA = set_eps(S)
     cells = []
@@ -273,10 +273,9 @@ def allocation_constructor_contract(S, ks):
     tot = {m: sum(al.get(m, 0) * r.shape.w * r.shape.h for r, al, _ in cells if m in al) for m in mods}
     wf = sand(*[sand(v >= 0, v <= 1) for _, al, _ in cells for v in al.values()], *[d >= 0 for _, _, d in cells],
               *[ovl(cells[i][0], cells[j][0]) <= EA for i in range(len(cells)) for j in range(i + 1, len(cells))],
-              smin(*[box(r)[0] for r, _, _ in cells]) >= 0, smin(*[box(r)[1] for r, _, _ in cells]) >= 0,
-              *[snot(seq(tot[m], 0)) for m in mods])
+              smin(*[box(r)[0] for r, _, _ in cells]) >= 0, smin(*[box(r)[1] for r, _, _ in cells]) >= 0)
     S.ensure("constructor.accepted_iff_wellformed", siff(out.ok, wf))
-    S.ensure("constructor.rejection_is_a_clean_error", out.ok or out.raised(AssertionError, ZeroDivisionError))
+    S.ensure("constructor.rejection_is_a_clean_error", out.ok or out.raised(AssertionError))
     if not out.ok:
         return
     a = out.value
@@ -286,7 +285,11 @@ def allocation_constructor_contract(S, ks):
         S.ensure("constructor.module_area_is_sum_of_ratio_times_cell_area", seq(a.area(m), tot[m]))
         mx = sum(al[m] * r.shape.w * r.shape.h * r.center.x for r, al, _ in cells if m in al)
         my = sum(al[m] * r.shape.w * r.shape.h * r.center.y for r, al, _ in cells if m in al)
-        S.ensure("constructor.module_centre_is_the_area_weighted_centroid", sand(seq(a.center(m).x * tot[m], mx), seq(a.center(m).y * tot[m], my)))
+        c = S.call(a.center, m)
+        # a module listed with zero ratios only has area 0 and no centre (fix 755f860); otherwise the centre is the centroid
+        S.ensure("constructor.centre_defined_iff_the_module_has_allocated_area", siff(c.ok, tot[m] > 0) and (c.ok or c.raised(KeyError)))
+        if c.ok:
+            S.ensure("constructor.module_centre_is_the_area_weighted_centroid", sand(seq(c.value.x * tot[m], mx), seq(c.value.y * tot[m], my)))
 
 
 @contract(P, functions=[A + "refine", A + "uniform_refinement_depth", A + "griddify", A + "__init__"], budget_s=600, exact_feas_ms=0,
@@ -369,15 +372,15 @@ def float_leg(chunk, replay=None):
         Rectangle.undefine_epsilon()
         try:
             a = Allocation([[list(r), dict(al), d] if d else [list(r), dict(al)] for r, al, d in spec])
-        except (AssertionError, ZeroDivisionError):
-            continue        # not a valid allocation (e.g. a module with zero total area): outside the property
+        except AssertionError:
+            continue        # not a valid allocation: outside the property
         fixed_idx = rng.randrange(len(spec)) if (rng.random() < 0.3 and not replay) else (replay or {}).get("fixed_idx")
         if fixed_idx is not None:
             a.allocations[fixed_idx].rect.fixed = True
         evals += 1
         mods = sorted({m for _, al, _ in spec for m in al})
         area0 = {m: a.area(m) for m in mods}
-        c0 = {m: (a.center(m).x, a.center(m).y) for m in mods}
+        c0 = {m: (a.center(m).x, a.center(m).y) for m in mods if area0[m] > 0}        # a module with zero ratios only has no centre
         tot0 = sum(x.rect.area for x in a.allocations)
         fixed_rects = [x.rect for x in a.allocations if x.rect.fixed]
         cur = a
@@ -401,7 +404,7 @@ def float_leg(chunk, replay=None):
         for m in mods:
             if abs(cur.area(m) - area0[m]) > 1e-9 * scale:
                 bad = "float.module_area_conserved"
-            elif abs(cur.center(m).x - c0[m][0]) > 1e-7 * (abs(c0[m][0]) + 1) or abs(cur.center(m).y - c0[m][1]) > 1e-7 * (abs(c0[m][1]) + 1):
+            elif m in c0 and (abs(cur.center(m).x - c0[m][0]) > 1e-7 * (abs(c0[m][0]) + 1) or abs(cur.center(m).y - c0[m][1]) > 1e-7 * (abs(c0[m][1]) + 1)):
                 bad = "float.module_centre_of_mass_conserved"
         for fr in fixed_rects:
             if not any(x.rect.fixed and x.rect.center == fr.center and x.rect.shape == fr.shape for x in cur.allocations):
